@@ -23,7 +23,8 @@ BOUNDS = {'quick': '44 base problems x (no cone + 4 cone structures x 1 variant)
 TECHNIQUE = 'bounded exhaustive enumeration of problem library x configurations; KKT conditions recomputed independently at the returned point'
 
 LOOSE = {'feastol': 1e-3, 'abstol': 1e-2, 'reltol': 1e-2}
-CONES_Q = [{'l': 2, 'q': [], 's': []}, {'l': 0, 'q': [3], 's': []}, {'l': 0, 'q': [], 's': [2]}, {'l': 1, 'q': [2], 's': [2]}]
+CONES_Q = [{'l': 2, 'q': [], 's': []}, {'l': 0, 'q': [3], 's': []}, {'l': 0, 'q': [], 's': [2]}, {'l': 1, 'q': [2], 's': [2]},
+           {'l': 0, 'q': [], 's': [2, 2]}]
 CONES_T = CONES_Q + [{'l': 1, 'q': [1], 's': [0]}, {'l': 0, 'q': [2, 2], 's': []}, {'l': 0, 'q': [], 's': [1, 2]},
                      {'l': 3, 'q': [], 's': []}, {'l': 0, 'q': [], 's': [3]}]
 
